@@ -165,7 +165,12 @@ def header_lines(rng, fields, noise=False):
     for i, (name, w) in enumerate(fields):
         if noise and rng.random() < 0.25:
             lines.append(rng.choice(['  { 0, "zero_width" },', '  { 3, "three" },', '    1, "nobrace"', '  { "nosize" },',
-                                     "", "  // comment", '  { 12, "twelve" },', '  { 1, "" },']))
+                                     "", "  // comment", '  { 12, "twelve" },', '  { 1, "" },',
+                                     # lines that merely CONTAIN a field-shaped fragment: an entry commented out, two entries on
+                                     # one line, an entry followed or preceded by other text (the grammar takes whole lines)
+                                     '  // { 1, "commented_out" },', '  /* { 2, "old_field" }, */',
+                                     '  { 1, "two" }, { 2, "on_one_line" },', '  { 2, "with_remark" }, // remark',
+                                     '  x { 1, "prefixed" },']))
         last = i == len(fields) - 1
         comma = "" if (last and rng.random() < 0.5) else ","
         if style == 3:
